@@ -473,6 +473,8 @@ def run(ctx):
 
     from .common import robots_after_verdict_rule
     robots_after_verdict_rule(ctx, 'C02-D4')
+    from .common import hostnames_agreement_rule
+    hostnames_agreement_rule(ctx, 'C02-D5')
 
     # ------------------------------------------------------------------ D6
     from .common import child_record_rules
